@@ -71,6 +71,23 @@ def okExtract (P : Str) (alph : List Char) (l : Location) (ans : Option Str) : B
     | none => ans.isNone
     | some loc => if within P loc then ans == expectExtract P alph l else true
 
+/-! ### identity-like re-constructions -/
+
+/-- `l.reset_strand(s)`, `l.reverse_strand().reverse_strand()`, `l.reset_parent(same)`, `l.optimize_blocks()`,
+    `l.shift_position(0)` followed by `extract_sequence()`: the new location `res` is well formed, covers the same
+    positions, has the requested strand (`want = some s`) or the old one (`want = none`), and its sequence is the
+    base-by-base image of ITS bases (T1 applied to the result).  `seq = none` ⇔ the extraction raised. -/
+def okXform (P : Str) (alph : List Char) (l : Location) (want : Option Strand) (res : Location) (seq : Option Str) :
+    Bool :=
+  match l with
+  | .empty => res == .empty && seq.isNone
+  | _ =>
+    wfLocation res &&
+    sortNat (locationBases res) == sortNat (locationBases l) &&
+    (res == .empty ||
+      locationStrand? res == (match want with | some s => some s | none => locationStrand? l)) &&
+    okExtract P alph res seq
+
 /-! ### reversing the strand -/
 
 /-- the same blocks on the opposite strand (re-sorted the way the constructor sorts for that strand) -/
